@@ -10,8 +10,9 @@ namespace DX
 (documented expansion of the standard derive): `debug_struct(name).field("a", &a)….finish()`
 for named fields, `debug_tuple(name).field(&0)….finish()` otherwise -/
 def stdDebugTrace (name : String) (kind : FieldsKind) (fields : List FieldE) : List DebugEv :=
-  (if kind == .named then DebugEv.debugStruct name else .debugTuple name) ::
-    (fields.map fun f => if kind == .named then DebugEv.namedField f.member f.index else .field f.index) ++ [.finish]
+  -- (the standard derive, too, passes names without the `r#` prefix of raw identifiers)
+  (if kind == .named then DebugEv.debugStruct (unraw name) else .debugTuple (unraw name)) ::
+    (fields.map fun f => if kind == .named then DebugEv.namedField (unraw f.member) f.index else .field f.index) ++ [.finish]
 
 
 /-- no transparent field: the call sequence is the standard derive's on the type with its
